@@ -1,30 +1,40 @@
-"""Lemmas: quantified facts with hand-chosen triggers that code proofs may use.  Each lemma here is PROVED by the engine
-(contracts/lemmas.py holds an inductive proof as a ghost loop in the Python subset, verified like any other function) and
-its statement is generated from the same text, so the axiom asserted in code VCs is exactly what was proved."""
+"""Lemmas: facts with an inductive proof.  contracts/lemmas.py holds, per lemma, its statement (requires/ensures over raw arrays and
+ints), its proof (a ghost loop in the Python subset, verified by the engine as the unit `lemma.<name>`) and optionally triggers.
+Code proofs use a lemma either by an explicit ghost call (instantiation) or - when it has triggers - as a quantified axiom that is
+GENERATED HERE FROM THE SAME STATEMENT, so what is asserted is exactly what was proved."""
+import ast
+import itertools
+
 import z3
 
-from pyvc import specz3
 from pyvc.sym import I, A, iv
 
 
-def _vars():
-    return dict(a=z3.Const("a_", A), d=z3.Int("d_"), lo=z3.Int("lo_"), hi=z3.Int("hi_"), mid=z3.Int("mid_"), i=z3.Int("i_"),
-                v=z3.Int("v_"), b=z3.Int("b_"), x=z3.Int("x_"))
-
-
 def axioms_of(registry, name):
-    V = _vars()
-    a, d, lo, hi, mid, i, v, b, x = (V[k] for k in ("a", "d", "lo", "hi", "mid", "i", "v", "b", "x"))
-    pv = specz3.pv
-    if name == "pv_store_frame":      # a store at or after hi, or before lo, does not change the value of [lo, hi)
-        return [z3.ForAll([a, d, lo, hi, b, i, v], z3.Implies(z3.Or(i >= hi, i < lo), pv(z3.Store(a, i, v), d, lo, hi, b) == pv(a, d, lo, hi, b)),
-                          patterns=[pv(z3.Store(a, i, v), d, lo, hi, b)])]
-    if name == "pv_leading_zeros":    # a zero-valued prefix can be dropped
-        return [z3.ForAll([a, d, lo, mid, hi, b], z3.Implies(z3.And(lo <= mid, mid <= hi, b >= 2, pv(a, d, lo, mid, b) == 0),
-                                                            pv(a, d, lo, hi, b) == pv(a, d, mid, hi, b)),
-                          patterns=[z3.MultiPattern(pv(a, d, lo, hi, b), pv(a, d, mid, hi, b))])]
-    if name == "pv_nonneg":           # digits >= 0 => value >= 0   (stated with the digit hypothesis as a quantified premise)
-        q = z3.Int("q_")
-        return [z3.ForAll([a, d, lo, hi, b], z3.Implies(z3.And(b >= 2, z3.ForAll([q], z3.Implies(z3.And(lo <= q, q < hi), a[q] + d >= 0))),
-                                                       pv(a, d, lo, hi, b) >= 0), patterns=[pv(a, d, lo, hi, b)])]
-    raise KeyError(name)
+    from pyvc.engine import Exec, State, tobool
+    from pyvc import speclang
+    L = registry.lemmas[name]
+    if not L.get("triggers"):
+        raise KeyError(f"lemma {name} has no triggers: use it by an explicit ghost call")
+    dummy = Exec("lemma-axiom." + name, ast.parse("def f():\n    pass\n").body[0], {"lemmas": []}, registry)
+    dummy.old = {}
+    out = []
+    split = L.get("split", {})
+    keys = sorted(split)
+    for combo in itertools.product(*[split[k] for k in keys]) if keys else [()]:
+        fixed = dict(zip(keys, combo))
+        st = State()
+        bound = []
+        for p, shape in L["params"].items():
+            if p in fixed:
+                st.env[p] = iv(fixed[p])
+            else:
+                v = z3.Const(p + "_", A if shape == "arr" else I)
+                st.env[p] = v
+                bound.append(v)
+        req = [tobool(speclang.evaluate(dummy, t, st, {})) for t in L["requires"].values()]
+        ens = [tobool(speclang.evaluate(dummy, t, st, {})) for t in L["ensures"].values()]
+        trig = [speclang.evaluate(dummy, t, st, {}) for t in L["triggers"]]
+        pat = z3.MultiPattern(*trig) if len(trig) > 1 else trig[0]
+        out.append(z3.ForAll(bound, z3.Implies(z3.And(*req) if req else z3.BoolVal(True), z3.And(*ens)), patterns=[pat]))
+    return out
